@@ -22,7 +22,13 @@ func Setup() { common.Setup() }
 // multiple of agg.Tick = 2^30 ns).  Deadlines are placed at T0 + k*Tick with k
 // symbolic, which is the same as letting arbitrary time pass.
 
+// rec: the flows of the first and third key are intra-node flows; the second
+// key's is an inter-node flow denied at egress: it needs no correlation, is
+// ready at once, and by design never has its correlated fields filled.
 func rec(k agg.Key) agg.Rec {
+	if k == agg.Keys[1] {
+		return agg.Rec{Key: k, FlowType: registry.FlowTypeInterNode, EgressAction: registry.NetworkPolicyRuleActionDrop, SrcPod: "pod1", SrcNode: "node1", TCPState: "ESTABLISHED", End: 1}
+	}
 	return agg.Rec{Key: k, FlowType: registry.FlowTypeIntraNode, SrcPod: "pod1", DstPod: "pod2", TCPState: "ESTABLISHED", End: 1}
 }
 
@@ -91,9 +97,21 @@ func Check_Step() {
 	n := sx.Range("flows", 0, maxFlows)
 	T0 := time.Now()
 	fl := make([]flow, n)
+	if n >= 2 {
+		// several flows are created by ONE message carrying a record of each (a
+		// single flow by a message of its own; the record operation below adds
+		// flows by single-record messages too)
+		var rs []agg.Rec
+		for i := 0; i < n; i++ {
+			rs = append(rs, rec(agg.Keys[i]))
+		}
+		sx.Assert(a.AggregateMsgByFlowKey(agg.Message(rs...)) == nil, "create")
+	}
 	for i := range fl {
 		f := flow{key: agg.Keys[i]}
-		sx.Assert(a.AggregateMsgByFlowKey(agg.Message(rec(f.key))) == nil, "create")
+		if n < 2 {
+			sx.Assert(a.AggregateMsgByFlowKey(agg.Message(rec(f.key))) == nil, "create")
+		}
 		f.active, f.inactive = ticks("active"), ticks("inactive")
 		sx.Assert(a.VerifSetDeadlines(f.key.FlowKey(), T0.Add(f.active), T0.Add(f.inactive)), "set-deadlines")
 		f.ready = sx.Bool("ready")
@@ -245,6 +263,43 @@ func Check_Step() {
 	}
 }
 
+// Check_RecordOnWaitingFlow: an inter-node flow that waits for its correlation
+// (created by one node's record, arbitrary deadlines) receives another record,
+// from the same node or from the other one: in both cases the inactive
+// deadline is pushed back to now + timeout and the active deadline stays; the
+// advertised next expiry follows.
+func Check_RecordOnWaitingFlow() {
+	a := agg.New(false)
+	k := agg.Keys[0]
+	T0 := time.Now()
+	fromSrc := func() agg.Rec {
+		return agg.Rec{Key: k, FlowType: registry.FlowTypeInterNode, SrcPod: "pod1", SrcNode: "node1", TCPState: "ESTABLISHED", End: 1}
+	}
+	fromDst := func() agg.Rec {
+		return agg.Rec{Key: k, FlowType: registry.FlowTypeInterNode, DstPod: "pod2", DstNode: "node2", TCPState: "ESTABLISHED", End: 1}
+	}
+	first := sx.Choose("creatingNode", 2)
+	mk := []func() agg.Rec{fromSrc, fromDst}
+	sx.Assert(a.AggregateMsgByFlowKey(agg.Message(mk[first]())) == nil, "create")
+	active, inactive := ticks("active"), ticks("inactive")
+	sx.Assert(a.VerifSetDeadlines(k.FlowKey(), T0.Add(active), T0.Add(inactive)), "set-deadlines")
+	invariant(a, "pre")
+	second := sx.Choose("secondRecordFrom", 2)
+	sx.Assert(a.AggregateMsgByFlowKey(agg.Message(mk[second]())) == nil, "record")
+	items := invariant(a, "after-record")
+	sx.Assert(len(items) == 1, "one-flow")
+	it := items[0]
+	sx.Assert(it.ReadyToSend == (first != second), "ready-exactly-when-both-nodes-reported")
+	sx.Assert(it.Inactive.Sub(T0) >= agg.InactiveTimeout && it.Inactive.Sub(T0) < agg.InactiveTimeout+agg.Tick, "inactive-deadline-pushed-back")
+	sx.Assert(it.Active.Sub(T0) >= active && it.Active.Sub(T0) < active+agg.Tick, "active-deadline-unchanged-by-record")
+	if first == second {
+		sx.Reach("same-node-record")
+	} else {
+		sx.Reach("correlating-record")
+	}
+}
+
 var Table = map[string]runner.Entry{
-	"Check_Step": {Setup: Setup, Fn: Check_Step},
+	"Check_RecordOnWaitingFlow": {Setup: Setup, Fn: Check_RecordOnWaitingFlow},
+	"Check_Step":                {Setup: Setup, Fn: Check_Step},
 }
